@@ -68,6 +68,8 @@ def gen(t, tier):
           'ocean': backend == 'file-link' or bool(t.chance(0.15)),
           # a cache merged from two sources; in upstream-failure periods only the overlay source fails
           'two_sources': backend != 'file-link' and bool(t.chance(0.3))}
+    # a second on_error mapping with the same colour whose fill image is to be cached (404), next to the uncached 500
+    sc['err404'] = not sc['two_sources'] and backend != 'file-link' and bool(t.chance(0.3))
     if backend == 'file-link':
         # make sure at least two requested tiles are constant-colour ones (they share the single-colour files)
         for x in range(n):
@@ -89,7 +91,7 @@ def gen(t, tier):
     for _ in range(nops):
         linked = backend == 'file-link'
         k = t.weighted([('get', 5), ('cond', 8), ('adv', 3), ('rewrite', (6 if linked else 2) if sc['refresh'] else 0),
-                        ('up500', 1 if linked else 2), ('cond_refresh', 2 if sc['refresh'] else 0),
+                        ('up500', 1 if linked else 2), ('up404', 2 if sc.get('err404') else 0), ('cond_refresh', 2 if sc['refresh'] else 0),
                         ('ocean', 5 if linked else (2 if sc['ocean'] else 0)), ('purge', 4 if linked else 1)])
         u = t.choice(len(coords))
         if k == 'get':
@@ -111,6 +113,8 @@ def gen(t, tier):
             sc['ops'].append(['ocean', t.choice(2)])
         elif k == 'purge':
             sc['ops'].append(['purge', u])
+        elif k == 'up404':
+            sc['ops'].append(['up404', bool(t.choice(2))])
         else:
             sc['ops'].append(['up500', bool(t.choice(2))])
     sc['tz'] = t.pick(C.TIMEZONES)
@@ -204,6 +208,11 @@ def _run(sc, tape):
                                    'on_error': {500: {'response': sc['fill'], 'cache': False}}}
         conf['caches']['c1']['sources'] = ['src', 'src2']
         http.fail_layers = set(['b'])
+    if sc.get('err404'):
+        # a second error mapping with the same fill colour that IS to be cached (a 404 of the upstream = "no data here")
+        conf['sources']['src']['on_error'] = {404: {'response': sc['fill'], 'cache': True},
+                                              500: {'response': sc['fill'], 'cache': False}}
+
     coords = [tuple(c) for c in sc['coords']]
     urls = [url_for(sc['service'], c) for c in coords]
     last = {}            # url index -> last non-creating 200 response of the current epoch
@@ -218,6 +227,22 @@ def _run(sc, tape):
         """number of successful upstream fetches that covered this URL's tile so far = how often it was (re)written"""
         return sum(1 for e in http.log if e['ok'] and e.get('bbox') and U.covers(e['bbox'], coords[u]))
 
+    purges = []          # (length of the upstream log at that moment, url index)
+
+    def stored_kind(u):
+        """what the history so far has put into the cache for this tile: every upstream answer covering it (alone or as part
+        of a meta tile) replaces it - an image, or the cacheable fill image of a 404; a 500 stores nothing; a purge removes it"""
+        timeline = [(i, 'tile' if e['ok'] else ('fill404' if e.get('code') == 404 else None))
+                    for i, e in enumerate(http.log) if e.get('bbox') and e['ok'] is not None and U.covers(e['bbox'], coords[u])]
+        timeline += [(pos - 0.5, 'purge') for pos, u2 in purges if u2 == u]
+        kind = None
+        for _, what_ in sorted(timeline, key=lambda x: x[0]):
+            if what_ == 'purge':
+                kind = None
+            elif what_ is not None:
+                kind = what_
+        return kind
+
     def get(u, headers=None):
         n0 = len(http.log)
         st, hd, body = F.wsgi_get(app, urls[u][0], urls[u][1], headers)
@@ -230,6 +255,15 @@ def _run(sc, tape):
             raise Bad('unexpected-status', '%s: status %d, body %r' % (what, st, body[:200]))
         kind, val = _decode(body)
         cc = hd.get('cache-control', '')
+        failed = [e for e in calls if e['ok'] is False]
+        if kind == 'fill' and sc.get('err404'):
+            if failed and all(e.get('code') == 404 for e in failed):
+                # the configuration says: cache this one
+                probes['cacheable_404_fills'] = probes.get('cacheable_404_fills', 0) + 1
+                return kind, val
+            if not failed and stored_kind(u) == 'fill404':
+                probes['cached_404_fill_served'] = probes.get('cached_404_fill_served', 0) + 1
+                return kind, val
         if kind == 'fill':
             fills[0] += 1
             if not any(e['ok'] is False for e in calls):
@@ -307,6 +341,8 @@ def _run(sc, tape):
                     clock.now = float(int(clock.now) + 1) if op[1] == 'boundary' else clock.now + op[1]
                 elif k == 'up500':
                     http.fail_code = 500 if op[1] else None
+                elif k == 'up404':
+                    http.fail_code = 404 if op[1] else None
                 elif k == 'ocean':
                     http.ocean = OCEANS[op[1]]
                 elif k == 'purge':
@@ -314,6 +350,7 @@ def _run(sc, tape):
                     from mapproxy.cache.tile import Tile
                     tm = [tmx for _, _, tmx in pc.caches['c1'].caches()][0]
                     tm.cache.remove_tile(Tile(coords[op[1]]))
+                    purges.append((len(http.log), op[1]))
                     if hasattr(tm.cache, 'cleanup'):
                         tm.cache.cleanup()
                 elif k == 'get':
